@@ -7,7 +7,6 @@ from mailbox import Error as MailboxError
 from mailbox import Maildir, Message, mbox
 
 from pygopherd import GopherExceptions, gopherentry
-from pygopherd.handlers.base import VFS_Real
 from pygopherd.handlers.virtual import Virtual
 
 
@@ -59,6 +58,10 @@ class MessageHandler(Virtual):
         the first line of the mbox file before returning a true or false
         result."""
         if not self.selectorargs:
+            return False
+
+        # Must be a real file: the mailbox module opens it by path
+        if not self.vfs.isrealfs():
             return False
 
         pattern = "^" + self.getargflag() + r"(\d+)$"
@@ -134,7 +137,7 @@ class MBoxFolderHandler(FolderHandler):
         """Figure out if this is a handleable request."""
         # Must be a real file
         if (
-            not isinstance(self.vfs, VFS_Real)
+            not self.vfs.isrealfs()
             or self.selectorargs
             or not self.statresult
             or not stat.S_ISREG(self.statresult[stat.ST_MODE])
@@ -179,7 +182,7 @@ class MBoxMessageHandler(MessageHandler):
 
 class MaildirFolderHandler(FolderHandler):
     def canhandlerequest(self):
-        if not isinstance(self.vfs, VFS_Real):
+        if not self.vfs.isrealfs():
             return 0
         if self.selectorargs:
             return 0
